@@ -334,6 +334,11 @@ def _parse_tlc_output(res):
             res.generated = int(m.group(1))
             res.distinct = int(m.group(2))
             continue
+        m = re.match(r"Progress: ([\d,]+) states checked, ([\d,]+) traces generated", s)
+        if m:      # simulation mode
+            res.generated = max(res.generated, int(m.group(1).replace(",", "")))
+            res.distinct = max(res.distinct, int(m.group(2).replace(",", "")))   # behaviours generated
+            continue
         m = re.match(r"The depth of the complete state graph search is (\d+)", s)
         if m:
             res.depth = int(m.group(1))
